@@ -487,19 +487,21 @@ def armEnabled (s : Sys) : Arm → Bool
   | .cmd => s.alive && !s.queue.isEmpty
   | .timer => s.alive && s.timerDue
 
-/-- poll the IO loop: it runs until no arm is ready. `first` = the arm `select!` happens to pick first;
-    afterwards the order is fixed (cmd, notify, timer). -/
-def ioIdle : Nat → Sys → Sys
-  | 0, s => s
-  | n + 1, s =>
-    if s.armEnabled .cmd then ioIdle n (s.ioArm .cmd)
-    else if s.armEnabled .notify then ioIdle n (s.ioArm .notify)
-    else if s.armEnabled .timer then ioIdle n (s.ioArm .timer)
-    else s
+/-- the first arm of `prio` that is ready -/
+def pickArm (s : Sys) : List Arm → Option Arm
+  | [] => none
+  | a :: rest => if s.armEnabled a then some a else pickArm s rest
 
-def ioRun (s : Sys) (first : Arm) : Sys :=
-  let s := if s.armEnabled first then s.ioArm first else s
-  ioIdle 8 s
+/-- Poll the IO loop: it iterates until no arm is ready. Where several arms are ready `select!` picks at random;
+    `prio` says which order is meant (the harness re-runs the case until the real loop took that order). -/
+def ioRunN : Nat → Sys → List Arm → Sys
+  | 0, s, _ => s
+  | n + 1, s, prio =>
+    match s.pickArm prio with
+    | some a => ioRunN n (s.ioArm a) prio
+    | none => s
+
+def ioRun (s : Sys) (prio : List Arm) : Sys := ioRunN 8 s prio
 
 /-- `command_sender.send(task)`: fails once the IO loop has exited (receiver dropped) -/
 def enqueue (s : Sys) (c : IOCmd) : Option Sys :=
@@ -539,17 +541,24 @@ end Sys
 
 /-! ## Operations of a case (what the harness executes) and their results -/
 
+/-- scheduling annotation of an operation that may poll the IO loop -/
+structure Sched where
+  /-- the clock is advanced by the idle interval before the operation (a timer tick is due) -/
+  clock : Bool := false
+  /-- order in which ready arms of the IO loop's `select!` run -/
+  prio : List Arm := [.cmd, .notify, .timer]
+deriving Repr, DecidableEq
+
 inductive Op where
   | append (es : List Entry)
-  | fca (prevI prevT : Nat) (es : List Entry) (first : Arm)
-  | purge (ci ct : Nat) (first : Arm)
-  | reset (first : Arm)
-  | flush (first : Arm)
+  | fca (prevI prevT : Nat) (es : List Entry) (sch : Sched)
+  | purge (ci ct : Nat) (sch : Sched)
+  | reset (sch : Sched)
+  | flush (sch : Sched)
   | alloc (n : Nat)
   | get (lo hi : Nat)
-  | ioN
-  | ioT
-  | close
+  | io (sch : Sched)
+  | close (sch : Sched)
   | crash (power : Bool)
 deriving Repr, DecidableEq
 
@@ -560,54 +569,58 @@ inductive Res where
   | ents (es : List Entry)
 deriving Repr, DecidableEq
 
-/-- the clock is advanced before the operation when the timer arm is meant to win -/
-def preClock (s : Sys) (first : Arm) : Sys := if first = .timer then { s with timerDue := true } else s
+/-- the clock is advanced before the operation -/
+def preClock (s : Sys) (sch : Sched) : Sys := if sch.clock then { s with timerDue := true } else s
 
-/-- with `~` the harness polls the IO loop at the end of the operation even if the operation did not wait, so that
-    the due timer tick never leaks into the next operation -/
-def pollIfTimer (s : Sys) (first : Arm) : Sys := if first = .timer then s.ioRun .timer else s
+/-- when the clock was advanced the harness polls the IO loop at the end of the operation even if the operation did
+    not wait, so that the due timer tick never leaks into the next operation -/
+def postClock (s : Sys) (sch : Sched) : Sys := if sch.clock then s.ioRun sch.prio else s
 
 /-- Execute one case operation: main-thread part, then (if it waits) the IO loop polled until idle. -/
 def execOp (s : Sys) : Op → Sys × Res × String
   | .append es => (s.append es, .ok, if es.isEmpty then "append-empty" else "append")
-  | .fca prevI prevT es first =>
-    let s := preClock s first
+  | .fca prevI prevT es sch =>
+    let s := preClock s sch
     match fcaDecide s.buf prevI prevT es with
     | (.reset, tag) =>
       (match s.resetMain with
-       | none => (pollIfTimer { s with buf := s.buf.resetMem } first, .err, tag ++ "-dead")
+       | none => (postClock { s with buf := s.buf.resetMem } sch, .err, tag ++ "-dead")
        | some s1 =>
-         let s2 := s1.ioRun first
-         (pollIfTimer (s2.append es) first, .fcaRes (lastId es), tag))
-    | (.mismatch, tag) => (pollIfTimer s first, .fcaRes s.buf.lastLogId, tag)
-    | (.noop, tag) => (pollIfTimer s first, .fcaRes (lastId es), tag)
-    | (.appendTail tail, tag) => (pollIfTimer (s.append tail) first, .fcaRes (lastId tail), tag)
+         let s2 := s1.ioRun sch.prio
+         (postClock (s2.append es) sch, .fcaRes (lastId es), tag))
+    | (.mismatch, tag) => (postClock s sch, .fcaRes s.buf.lastLogId, tag)
+    | (.noop, tag) => (postClock s sch, .fcaRes (lastId es), tag)
+    | (.appendTail tail, tag) => (postClock (s.append tail) sch, .fcaRes (lastId tail), tag)
     | (.replace d tail, tag) =>
       let s1 := { s with buf := s.buf.replaceMem d tail }
       (match s1.enqueue (.replace d tail) with
-       | none => (pollIfTimer s1 first, .err, tag ++ "-dead")
-       | some s2 => (s2.ioRun first, .fcaRes (lastId tail), tag))
-  | .purge ci ct first =>
-    let s := preClock s first
+       | none => (postClock s1 sch, .err, tag ++ "-dead")
+       | some s2 => (postClock (s2.ioRun sch.prio) sch, .fcaRes (lastId tail), tag))
+  | .purge ci ct sch =>
+    let s := preClock s sch
     (match s.purgeMain ci ct with
-     | none => (pollIfTimer { s with buf := s.buf.purgeMem ci ct } first, .err, "purge-dead")
-     | some s1 => (s1.ioRun first, .ok, "purge"))
-  | .reset first =>
-    let s := preClock s first
+     | none => (postClock { s with buf := s.buf.purgeMem ci ct } sch, .err, "purge-dead")
+     | some s1 => (postClock (s1.ioRun sch.prio) sch, .ok, "purge"))
+  | .reset sch =>
+    let s := preClock s sch
     (match s.resetMain with
-     | none => (pollIfTimer { s with buf := s.buf.resetMem } first, .err, "reset-dead")
-     | some s1 => (s1.ioRun first, .ok, "reset"))
-  | .flush first =>
-    let s := preClock s first
+     | none => (postClock { s with buf := s.buf.resetMem } sch, .err, "reset-dead")
+     | some s1 => (postClock (s1.ioRun sch.prio) sch, .ok, "reset"))
+  | .flush sch =>
+    let s := preClock s sch
     (match s.flushMain with
-     | none => (pollIfTimer s first, .err, "flush-dead")
-     | some (s1, false) => (pollIfTimer s1 first, .ok, "flush-short-circuit")
-     | some (s1, true) => (s1.ioRun first, .ok, "flush-io"))
+     | none => (postClock s sch, .err, "flush-dead")
+     | some (s1, false) => (postClock s1 sch, .ok, "flush-short-circuit")
+     | some (s1, true) => (postClock (s1.ioRun sch.prio) sch, .ok, "flush-io"))
   | .alloc n => let (b, r) := s.buf.alloc n; ({ s with buf := b }, .range r, "alloc")
   | .get lo hi => (s, .ents (s.buf.getRange lo hi), "get")
-  | .ioN => (s.ioRun .notify, .ok, if s.armEnabled .notify then "io-notify" else "io-idle")
-  | .ioT => (({ s with timerDue := true }).ioRun .timer, .ok, "io-timer")
-  | .close => (s.closeMain.ioRun .cmd, .ok, if s.alive then "close" else "close-dead")
+  | .io sch =>
+    let s1 := preClock s sch
+    (s1.ioRun sch.prio, .ok,
+      if sch.clock then "io-timer" else if s.armEnabled .notify then "io-notify" else "io-idle")
+  | .close sch =>
+    let s1 := preClock s sch
+    (s1.closeMain.ioRun sch.prio, .ok, if s.alive then "close" else "close-dead")
   | .crash power => (s.reopen power, .ok, if power then "crash-power" else "crash-process")
 
 def opPanics (s : Sys) : Op → Bool
@@ -687,7 +700,7 @@ def wfOp (p : Plain) : Op → Bool
     else contigFrom (prevI + 1) es && termsPos es && termsMono es
   | .purge ci _ _ => p.anchorI ≤ ci
   | .crash _ => false
-  | .close => false
+  | .close _ => false
   | _ => true
 
 def Plain.exec (p : Plain) : Op → Plain × Res
